@@ -569,12 +569,14 @@ def site_expected(root, latex):
     return [(l, d) for (l, d) in out if l.strip()]
 
 
-def pte_check(om):
+def pte_check(om, roles=None):
     """docx text assembly: m:oMath -> $latex$, m:oMathPara -> $$latex of its first m:oMath$$, only with
     include_formulas and a non-blank rendering; run texts and formulas in document order"""
-    import importlib
-    dx = importlib.import_module("sharepoint2text.parsing.extractors.ms_modern.docx_extractor")
-    name = "docx_extractor.py::_process_text_element"
+    roles = roles or site_roles()
+    dx, pte, para = roles["dx"], roles["pte"], roles["para"]
+    if pte is None:
+        return None
+    name = "docx_extractor.py::" + pte.__name__
 
     def o(t):
         return E("oMath") if t is None else E("oMath", run(t))
@@ -596,7 +598,7 @@ def pte_check(om):
         for inc in (True, False):
             parts = []
             try:
-                dx._process_text_element(build_any(d), parts, inc)
+                pte(build_any(d), parts, inc)
                 got = parts
             except Exception as e:  # noqa
                 got = f"{type(e).__name__}: {e}"
@@ -604,6 +606,8 @@ def pte_check(om):
                 ET.register_namespace("m", NS)
                 return {"reproduced": True, "target": name, "check": "site", "expected": want_of(d, inc), "observed": got,
                         "inputs": {"xml": ET.tostring(build_any(d), encoding="unicode"), "tree": d, "include_formulas": inc}}
+    if para is None or not all(hasattr(dx, k) for k in ("W_R", "W_T", "W_P")):
+        return None
     # a paragraph: runs and formulas in document order
     def wr(t):
         return ["!" + dx.W_R, {}, None, [["!" + dx.W_T, {}, t, []]]]
@@ -613,11 +617,11 @@ def pte_check(om):
                 d = ["!" + dx.W_P, {}, None, [wr("a"), a, wr("b"), b, wr("c")]]
                 want = "a" + "".join(want_of(a, inc)) + "b" + "".join(want_of(b, inc)) + "c"
                 try:
-                    got = dx._extract_paragraph_content(build_any(d), inc)
+                    got = para(build_any(d), inc)
                 except Exception as e:  # noqa
                     got = f"{type(e).__name__}: {e}"
                 if got != want:
-                    return {"reproduced": True, "target": "docx_extractor.py::_extract_paragraph_content", "check": "site",
+                    return {"reproduced": True, "target": "docx_extractor.py::" + para.__name__, "check": "site",
                             "expected": want, "observed": got,
                             "inputs": {"xml": ET.tostring(build_any(d), encoding="unicode"), "tree": d, "include_formulas": inc}}
     return None
@@ -669,21 +673,63 @@ def pptx_e2e_check(om):
     return None
 
 
+def site_roles():
+    """the call-site functions of the real modules, found by what they do (they may have been renamed):
+    {role: function or None}.  AST only -- the same rules as contracts/C19_sites.py::_discover."""
+    import ast
+    import importlib
+    repo = os.environ.get("VERIF_REPO", "/repo")
+    rels = {"pptx": "sharepoint2text/parsing/extractors/ms_modern/pptx_extractor.py",
+            "docx": "sharepoint2text/parsing/extractors/ms_modern/docx_extractor.py"}
+
+    def calls(fn, name):
+        return [n for n in ast.walk(fn) if isinstance(n, ast.Call) and (
+            (isinstance(n.func, ast.Name) and n.func.id == name) or (isinstance(n.func, ast.Attribute) and n.func.attr == name))]
+    names = {"pptx": "_extract_formulas_from_element", "docx": "_extract_formulas_from_context", "pte": "_process_text_element"}
+    out = {}
+    try:
+        tops = {k: {n.name: n for n in ast.parse(open(os.path.join(repo, r), encoding="utf-8").read()).body if isinstance(n, ast.FunctionDef)}
+                for k, r in rels.items()}
+        pc = [q for q, f in tops["pptx"].items() if calls(f, "omml_to_latex")]
+        if names["pptx"] not in pc and len(pc) == 1:
+            names["pptx"] = pc[0]
+        dc = {q: f for q, f in tops["docx"].items() if calls(f, "omml_to_latex")}
+        rec = [q for q, f in dc.items() if calls(f, q)]
+        if names["pte"] not in dc and len(rec) == 1:
+            names["pte"] = rec[0]
+        mk = [q for q, f in dc.items() if calls(f, "DocxFormula") and q not in rec]
+        if names["docx"] not in dc and len(mk) == 1:
+            names["docx"] = mk[0]
+        # the paragraph-level caller of the text assembly (optional)
+        para = [q for q, f in tops["docx"].items() if q != names["pte"] and calls(f, names["pte"]) and len(f.args.args) == 2
+                and calls(f, "join")]
+        names["para"] = para[0] if len(para) == 1 else "_extract_paragraph_content"
+    except Exception:  # noqa
+        pass
+    px = importlib.import_module("sharepoint2text.parsing.extractors.ms_modern.pptx_extractor")
+    dx = importlib.import_module("sharepoint2text.parsing.extractors.ms_modern.docx_extractor")
+    out["pptx"] = getattr(px, names["pptx"], None)
+    out["docx"] = getattr(dx, names["docx"], None)
+    out["pte"] = getattr(dx, names["pte"], None)
+    out["para"] = getattr(dx, names.get("para", ""), None)
+    out["dx"], out["px"] = dx, px
+    return out
+
+
 def site_check(which):
     import importlib
     import types
     om = importlib.import_module("sharepoint2text.parsing.extractors.util.omml_to_latex").omml_to_latex
+    roles = site_roles()
     sites = []
-    if "_extract_formulas_from_context" not in which:
-        px = importlib.import_module("sharepoint2text.parsing.extractors.ms_modern.pptx_extractor")
-        sites.append(("pptx_extractor.py::_extract_formulas_from_element", lambda r: list(px._extract_formulas_from_element(r))))
-    if "_extract_formulas_from_element" not in which:
-        dx = importlib.import_module("sharepoint2text.parsing.extractors.ms_modern.docx_extractor")
-        sites.append(("docx_extractor.py::_extract_formulas_from_context",
-                      lambda r: [(f.latex, f.is_display) for f in dx._extract_formulas_from_context(types.SimpleNamespace(document_body=r))]))
+    if "_extract_formulas_from_context" not in which and roles["pptx"] is not None:
+        sites.append(("pptx_extractor.py::" + roles["pptx"].__name__, lambda r: list(roles["pptx"](r))))
+    if "_extract_formulas_from_element" not in which and roles["docx"] is not None:
+        sites.append(("docx_extractor.py::" + roles["docx"].__name__,
+                      lambda r: [(f.latex, f.is_display) for f in roles["docx"](types.SimpleNamespace(document_body=r))]))
     tried = 0
     if "_process_text_element" in which or which == "site:":
-        bad = pte_check(om)
+        bad = pte_check(om, roles)
         if bad is not None:
             return bad
     if "_process_slide_from_context" in which or which == "site:":
@@ -693,7 +739,7 @@ def site_check(which):
     if "_process_text_element" in which or "_process_slide_from_context" in which:
         sites = []
     for name, call in sites:
-        if "context" in name:
+        if name.startswith("docx"):
             try:
                 got = call(None)
             except Exception as e:  # noqa
@@ -735,6 +781,37 @@ def category(obligation):
 
 
 def find(req):
+    """cached per (category, sources): many undecided obligations of one run ask for the same search"""
+    import hashlib
+    import json
+    which = category(req.get("obligation"))
+    repo = os.environ.get("VERIF_REPO", "/repo")
+    h = hashlib.sha1((which + "|" + os.environ.get("VERIF_SEED", "0")).encode())
+    for rel in ("sharepoint2text/parsing/extractors/util/omml_to_latex.py", "sharepoint2text/parsing/extractors/ms_modern/docx_extractor.py",
+                "sharepoint2text/parsing/extractors/ms_modern/pptx_extractor.py", "sharepoint2text/parsing/extractors/data_types.py"):
+        try:
+            h.update(open(os.path.join(repo, rel), "rb").read())
+        except OSError:
+            h.update(b"?")
+    h.update(open(os.path.abspath(__file__), "rb").read())
+    cdir = os.path.join(os.path.dirname(os.path.dirname(os.path.abspath(__file__))), "out", "replay_cache")
+    cpath = os.path.join(cdir, "C19_" + h.hexdigest() + ".json")
+    try:
+        return json.load(open(cpath))
+    except (OSError, ValueError):
+        pass
+    res = _find(req)
+    try:
+        os.makedirs(cdir, exist_ok=True)
+        tmp = cpath + f".{os.getpid()}"
+        json.dump(res, open(tmp, "w"), default=repr)
+        os.replace(tmp, cpath)
+    except OSError:
+        pass
+    return res
+
+
+def _find(req):
     import importlib
     m = importlib.import_module("sharepoint2text.parsing.extractors.util.omml_to_latex")
     fn, conv = m.omml_to_latex, m.convert_greek_and_symbols
